@@ -42,6 +42,8 @@ type Solver struct {
 	UseNRA    bool // real arithmetic present: use the nlsat tactic (z3's incremental core is weak on NRA)
 	NRAFallbacks int
 	ModelTime    time.Duration
+	Dead         bool // the solver stopped answering and was killed: its state is lost
+	Kills        int
 }
 
 func New(kind string, timeoutMs int) (*Solver, error) {
@@ -98,6 +100,7 @@ func (s *Solver) Close() {
 
 func (s *Solver) Restart() error {
 	s.Close()
+	s.Dead = false
 	return s.start()
 }
 
@@ -265,46 +268,73 @@ func (s *Solver) Check() Result {
 func (s *Solver) checkWith(cmd string) Result {
 	start := time.Now()
 	s.Queries++
+	if s.Dead {
+		return Unknown
+	}
 	s.send(cmd)
-	r := Unknown
-	for {
-		line, err := s.readSexp()
-		if err != nil {
-			s.Errors++
-			s.LastError = "solver pipe: " + err.Error()
-			break
-		}
-		if line == "sat" {
-			r = Sat
-			break
-		}
-		if line == "unsat" {
-			r = Unsat
-			break
-		}
-		if line == "unknown" || line == "timeout" {
-			r = Unknown
-			break
-		}
-		if strings.HasPrefix(line, "(error") {
-			s.Errors++
-			s.LastError = line
-			if strings.HasPrefix(cmd, "(check-sat-using") {
-				// a failing tactic prints only the error
+	type ans struct {
+		r   Result
+		err string
+	}
+	ch := make(chan ans, 1)
+	go func() {
+		r := Unknown
+		for {
+			line, err := s.readSexp()
+			if err != nil {
+				ch <- ans{Unknown, "solver pipe: " + err.Error()}
+				return
+			}
+			if line == "sat" {
+				r = Sat
+				break
+			}
+			if line == "unsat" {
+				r = Unsat
+				break
+			}
+			if line == "unknown" || line == "timeout" {
 				r = Unknown
 				break
 			}
-			fmt.Fprintln(os.Stderr, "symgo: solver error:", line)
-			// keep reading: the check-sat answer follows
-			continue
+			if strings.HasPrefix(line, "(error") {
+				if strings.HasPrefix(cmd, "(check-sat-using") {
+					// a failing tactic prints only the error
+					ch <- ans{Unknown, line}
+					return
+				}
+				fmt.Fprintln(os.Stderr, "symgo: solver error:", line)
+				ch <- ans{Unknown, "error-then-answer:" + line}
+				// the check-sat answer follows: consume it
+				s.readSexp()
+				return
+			}
+			ch <- ans{Unknown, "unexpected solver output: " + line}
+			return
 		}
-		// unexpected
+		ch <- ans{r, ""}
+	}()
+	// hard watchdog: the soft timeout is not honoured in every solver phase
+	limit := time.Duration(s.TimeoutMs)*2*time.Millisecond + 5*time.Second
+	var a ans
+	select {
+	case a = <-ch:
+	case <-time.After(limit):
+		s.Dead = true
+		s.Kills++
+		s.cmd.Process.Kill()
+		a = ans{Unknown, "solver killed after " + limit.String()}
+		<-ch // the reader goroutine ends on the closed pipe
+	}
+	if a.err != "" {
 		s.Errors++
-		s.LastError = "unexpected solver output: " + line
-		fmt.Fprintln(os.Stderr, "symgo:", s.LastError)
+		s.LastError = a.err
+		if !strings.HasPrefix(cmd, "(check-sat-using") && !s.Dead {
+			fmt.Fprintln(os.Stderr, "symgo:", a.err)
+		}
 	}
 	s.Time += time.Since(start)
-	return r
+	return a.r
 }
 
 // Model returns values for the given terms (after a Sat answer). Terms whose
@@ -315,6 +345,9 @@ func (s *Solver) Model(ts []*sym.Term) sym.Model {
 	m := sym.Model{}
 	if len(ts) == 0 {
 		return m
+	}
+	if s.Dead {
+		return nil
 	}
 	const chunk = 200
 	for i := 0; i < len(ts); i += chunk {
